@@ -1736,7 +1736,11 @@ impl<'a> Socket<'a> {
 
         let window_start = self.remote_seq_no + self.rx_buffer.len();
         let window_end = if let Some(last_ack) = self.remote_last_ack {
-            last_ack + ((self.remote_last_win as usize) << self.remote_win_shift)
+            let window_end = last_ack + ((self.remote_last_win as usize) << self.remote_win_shift);
+            // A FIN sitting exactly at the right edge (or a SYN processed before anything was
+            // advertised) moves `window_start` one past what was advertised last: that is an
+            // empty window, not one that wraps around the sequence space.
+            window_end.max(window_start)
         } else {
             window_start
         };
